@@ -175,14 +175,16 @@ h_bit_masks(void)
 static void
 ghost_init(void)
 {
-    H4V_HAVOC(int32, g_aid);
-    H4V_HAVOC(int32, g_reg_id);
+    /* concrete ids (hbitio.c treats ids as opaque): with symbolic ids cbmc cannot fold
+       `bitid != last_bit_id` nor `mode == 'r'`, and then unfolds the recursion
+       Hbitwrite -> HIread2write -> Hbitseek -> HIbitflush -> Hbitwrite to the unwind bound */
+    g_aid    = 0x30000001;
+    g_reg_id = 0x70000001;
     g_len = g_pos = 0;
     g_aid_open = g_registered = 0;
     g_unknown_lookups = 0;
     g_reg_obj         = NULL;
     memset(g_store, 0, BIT_CAP);
-    H4V_ASSUME(g_aid != FAIL && g_reg_id != FAIL);
 }
 
 #ifndef BIT_NF
